@@ -116,6 +116,10 @@ func (pf *ProofMod) Verify(Session []byte, N *big.Int) bool {
 		return false
 	}
 	// TODO: add basic properties checker
+	// big.Jacobi panics on an even modulus, and the challenges are reduced modulo N
+	if N == nil || N.Sign() != 1 || N.Bit(0) == 0 {
+		return false
+	}
 	if isQuadraticResidue(pf.W, N) {
 		return false
 	}
